@@ -29,7 +29,8 @@ RULE = ("case = a HISTORY of definitions: 0..2 decorated functions followed by 2
         "of up to 3 contracted roots that install the helper as the overriding method; after every step every earlier "
         "wrapper/class is probed with each contract falsy in turn: same verdict and same evaluated contracts as before, "
         "and never a contract that was not declared for it.")
-ASSUMPTIONS = ["re-decorating a method of an already created DBC class is not a rule (the library asserts against it)",
+ASSUMPTIONS = ["in the progmodel histories a method of an already created DBC class is not decorated again (with two or more "
+               "inherited groups the library asserts against it); the shared-object histories do it for one inherited group",
                "before/after comparison of the same library (metamorphic); the reference model is not needed here"]
 DECO_KW = dict(n_pre=(0, 2), n_post=(0, 2), n_snap=(0, 1), n_wraps=(0, 1), err_forms=("default", "instance"))
 HIER_KW = dict(n_classes=(2, 7), dag=True, with_invs=True, with_init=True, multi_root=True, async_ok=False)
